@@ -7,6 +7,7 @@ import (
 	//lint:ignore SA1019 we use the old v1 package because
 	//  we need to support older generated messages
 	"github.com/golang/protobuf/proto"
+	"github.com/jhump/protoreflect/dynamic"
 	"google.golang.org/grpc/encoding"
 	grpcproto "google.golang.org/grpc/encoding/proto"
 
@@ -67,6 +68,14 @@ func CloneFunc(fn func(interface{}) (interface{}, error)) Cloner {
 			return err
 		}
 
+		// dynamic messages: all have the same Go type whatever their message
+		// type, and they can be copied to and from generated messages
+		_, inDyn := in.(*dynamic.Message)
+		_, outDyn := out.(*dynamic.Message)
+		if inDyn || outDyn {
+			return internal.CopyMessage(out, in)
+		}
+
 		// then shallow-copy into out via reflection
 		src := reflect.Indirect(reflect.ValueOf(in))
 		dest := reflect.Indirect(reflect.ValueOf(out))
@@ -89,7 +98,15 @@ func CloneFunc(fn func(interface{}) (interface{}, error)) Cloner {
 // function is used to copy the input to the newly created value.
 func CopyFunc(fn func(out, in interface{}) error) Cloner {
 	cloneFn := func(in interface{}) (interface{}, error) {
-		clone := reflect.New(reflect.TypeOf(in).Elem()).Interface()
+		var clone interface{}
+		if dm, ok := in.(*dynamic.Message); ok {
+			// a zero dynamic.Message has no descriptor and is unusable
+			c := proto.Clone(dm).(*dynamic.Message)
+			c.Reset()
+			clone = c
+		} else {
+			clone = reflect.New(reflect.TypeOf(in).Elem()).Interface()
+		}
 		if err := fn(clone, in); err != nil {
 			return nil, err
 		}
